@@ -9,6 +9,12 @@ pub fn run(ctx: &Ctx) -> Outcome {
     run_and_report(ctx, &rtx(ctx.tier, 5, true, d), &mut out);
     run_and_report(ctx, &rtx_after_recovery_rto(ctx.tier, ctx.tier.pick(7, 9)), &mut out);
     run_and_report(ctx, &rtx_piggyback(ctx.tier, ctx.tier.pick(6, 8)), &mut out);
+    // many consecutive timeouts (the 60 s ceiling of the back-off), and a transport that refuses a datagram
+    // now and then (a refusal is not a transmission)
+    run_and_report(ctx, &rtx_long_backoff(ctx.tier, 15), &mut out);
+    for r in [1usize, 2] {
+        run_and_report(ctx, &rtx_refused(ctx.tier, r, ctx.tier.pick(7, 9)), &mut out);
+    }
     run_and_report(ctx, &rtx_after_fast_recovery(ctx.tier, ctx.tier.pick(6, 8)), &mut out);
     run_and_report(ctx, &rtx_after_long_recovery(ctx.tier, ctx.tier.pick(6, 8)), &mut out);
     run_and_report(ctx, &mtu(ctx.tier, 700, Some(600), None, 0, ctx.tier.pick(6, 8)), &mut out);
